@@ -347,7 +347,12 @@ func (e *Engine) applyContract(st *State, fr *Frame, fn *ssa.Function, c *Contra
 			} else {
 				e.addObligation(st, fr, "nopanic", rel, mkNot(pc), "callee does not panic: !("+c.Panics[0].Text+")")
 			}
+			alwaysPanics := (pc.IsConst() && pc.Val.Sign() != 0) || st.hypKeys[pc.Key()]
 			st.assume(mkNot(pc))
+			if alwaysPanics || st.infeasible() {
+				// the callee certainly panics on this path: there is no normal return to describe
+				return outs
+			}
 		}
 	}
 	// case split requested by the contract (conditional pointer results)
